@@ -4,7 +4,7 @@
 // handle_resend_request; the persister is a recording Persister subclass (C16/C17) or the real MemoryPersister (C18).
 // usage: sessb_replay send  n r always persist op j destroy custom noinc  {kind pre34 pre43 orig}*j
 //        sessb_replay resend n B E persist  has1 has2 ... hasK
-//        sessb_replay reject n r      (inbound message with a bad checksum through Session::process)
+//        sessb_replay reject n r [fail kind]   (inbound message, by default with a bad checksum, through Session::process)
 // exit code: bit0 = C16 oracle violated, bit1 = C17 oracle violated, bit2 = C18 oracle violated; 64 = driver problem
 #include <fix8/f8includes.hpp>
 #include "utest_types.hpp"
@@ -199,14 +199,14 @@ static int run_resend(int argc, char **argv)
 static int run_reject(int argc, char **argv)
 {
    if (argc < 4) return 64;
-   unsigned n(std::stoul(argv[2])), r(std::stoul(argv[3]));
+   unsigned n(std::stoul(argv[2])), r(std::stoul(argv[3])); const bool fail(argc < 5 || atoi(argv[4])); const int kind(argc > 5 ? atoi(argv[5]) : 0);
    Wire w; RecPersister per; SessionID sid(f8String("FIX.4.2"), f8String("S"), f8String("T"));
    RSession *ss(new RSession(UTEST::ctx(), sid, &per));
    ClientConnection *conn(new ClientConnection(w.cli, w.addr, *ss, 10, pm_thread));
    ss->prime(n, r, false, conn); per.cs = n; per.cr = r; per.cn = 1;
-   Message *m(make(0)); *m->Header() << new msg_seq_num(r) << new sending_time << new sender_comp_id("T") << new target_comp_id("S");
+   Message *m(make(kind)); *m->Header() << new msg_seq_num(r) << new sending_time << new sender_comp_id("T") << new target_comp_id("S");
    f8String enc; m->encode(enc); delete m;
-   enc.replace(enc.size() - 4, 3, enc.substr(enc.size() - 4, 3) == "000" ? "001" : "000");      // corrupt the checksum value
+   if (fail) enc.replace(enc.size() - 4, 3, enc.substr(enc.size() - 4, 3) == "000" ? "001" : "000");      // corrupt the checksum value
    const bool ret(ss->process(enc));
    const std::string wire(w.drain()); const std::vector<std::string> out(split_msgs(wire));
    const int bad(per.cs != ss->ns() || per.cr != ss->nr());
